@@ -22,9 +22,9 @@ Line(inp) == ToJson([inp |-> Pairs(inp), claim |-> Claim, toks |-> toks])
 Completions ==
   IF m.st # "rej" \/ m.err = "eof" THEN {}
   ELSE IF m.at = "type"
-    THEN {Runs(<<0>>), Runs(<<1, Filler>>), Runs(<<2, Filler, Filler>>)}
+    THEN {Runs(<<0>>), Runs(<<1, FillerOf(nrec)>>), Runs(<<2, FillerOf(nrec), FillerOf(nrec)>>)}
   ELSE LET v == Class[toks[Len(toks)].c] IN
-       IF Small(v) /\ v # <<>> THEN {<<[b |-> Filler, n |-> NatOfNum(v)]>>} ELSE {}
+       IF Small(v) /\ v # <<>> THEN {<<[b |-> FillerOf(nrec), n |-> NatOfNum(v)]>>} ELSE {}
 
 Dump == Terminal(m) =>
           /\ CSVWrite("%1$s", <<Line(fed)>>, "tok.ndjson")
